@@ -76,3 +76,10 @@ CASES += [
     dict(id='c04-eq-postfix-increment-try-block', prop='C04', file=H, expect=None,
          old="   if (mUsedByGroup)\n      Groups::instance().crossCheckArguments( this);\n\n   return ah_obj;", new="   if (mUsedByGroup)\n   {\n      Groups::instance().crossCheckArguments( this);\n   } // end if\n\n   return ah_obj;"),
 ]
+
+CASES += [
+    dict(id='c04-orig-argument-file-nesting-unbounded', prop='C04', file=H, expect='R14',
+         old="   if (++mArgFileNesting > MaxArgFileNesting)\n      throw runtime_error(", new="   if (++mArgFileNesting < 0)\n      return;\n   if (false)\n      throw runtime_error("),
+    dict(id='c04-eq-argument-file-nesting-test-form', prop='C04', file=H, expect=None,
+         old="   if (++mArgFileNesting > MaxArgFileNesting)\n      throw runtime_error(", new="   ++mArgFileNesting;\n   if (mArgFileNesting >= MaxArgFileNesting + 1)\n      throw runtime_error("),
+]
